@@ -51,7 +51,7 @@ func vMakeUpload(rng *vRand, path, kind string, n int) vUpload {
 		u.declSize = int64(n) - 1
 	case "wrongHash":
 		u.declHash = vSha(append([]byte{1}, data...))
-	case "garbage", "truncstream", "trailing-garbage":
+	case "garbage", "truncstream", "trailing-garbage", "checksum":
 		u.badWire = kind
 	}
 	return u
@@ -71,6 +71,11 @@ func (u vUpload) wireZstd() []byte {
 		return z[:len(z)-3]
 	case "trailing-garbage":
 		return append(z, []byte("trailing bytes after the payload")...)
+	case "checksum":
+		// the frame carries a content checksum (last 4 bytes): corrupt it, the payload stays intact
+		c := append([]byte(nil), z...)
+		c[len(c)-1-int(u.declSize)%4] ^= 0x21
+		return c
 	}
 	return z
 }
@@ -233,18 +238,28 @@ func (f *vFix) vDoUpload(t testing.TB, rng *vRand, u vUpload, web *vWeb) (acked 
 
 // vWeb serves blobs for FetchBlob.
 type vWeb struct {
-	srv   *httptest.Server
-	blobs map[string][]byte
-	short map[string]bool
-	n     int
+	srv     *httptest.Server
+	blobs   map[string][]byte
+	short   map[string]bool
+	chunked map[string]bool
+	n       int
 }
 
 func vNewWeb() *vWeb {
-	w := &vWeb{blobs: map[string][]byte{}, short: map[string]bool{}}
+	w := &vWeb{blobs: map[string][]byte{}, short: map[string]bool{}, chunked: map[string]bool{}}
 	w.srv = httptest.NewServer(http.HandlerFunc(func(rw http.ResponseWriter, r *http.Request) {
 		b, ok := w.blobs[r.URL.Path]
 		if !ok {
 			http.NotFound(rw, r)
+			return
+		}
+		if !w.short[r.URL.Path] && w.chunked[r.URL.Path] {
+			// no Content-Length: chunked transfer (FetchBlob then has to buffer and hash the body itself)
+			if fl, ok := rw.(http.Flusher); ok {
+				rw.WriteHeader(200)
+				fl.Flush()
+			}
+			_, _ = rw.Write(b)
 			return
 		}
 		rw.Header().Set("Content-Length", fmt.Sprint(len(b)))
@@ -266,6 +281,7 @@ func (w *vWeb) serve(b []byte, short bool) string {
 	p := fmt.Sprintf("/blob/%d", w.n)
 	w.blobs[p] = b
 	w.short[p] = short
+	w.chunked[p] = w.n%2 == 0 // every other origin answers without Content-Length
 	return w.srv.URL + p
 }
 
@@ -278,7 +294,7 @@ func TestVerifServerWritePaths(t *testing.T) {
 	kindsFor := func(p string) []string {
 		ks := []string{"exact", "flipped", "truncated", "extended", "wrongSize", "wrongSizeSmaller", "wrongHash", "knownWrongSize"}
 		if strings.HasSuffix(p, "Zstd") {
-			ks = append(ks, "garbage", "truncstream", "trailing-garbage")
+			ks = append(ks, "garbage", "truncstream", "trailing-garbage", "checksum")
 		}
 		if strings.HasPrefix(p, "bsWrite") || p == "fetchBlob" {
 			ks = append(ks, "abort")
